@@ -50,6 +50,7 @@ package ignorefiles
 //@       && ($last < anyIndex && anyIndex < $iter ==> !ruleM(r, anyIndex, path))
 //@       && foundMatch == ($last >= 0 && !r.rules[$last].negated)
 //@       && dominating == (foundMatch && !r.rules[$last].negationsAfter && hasSuffix(r.rules[$last].val, "**"))
+//@   defines def.excl: res.Excluded == excl(r, path) && res.Dominating == domin(r, path)
 //@   ensures C03.excludes.nil: r == nil ==> !res.Excluded && !res.Dominating
 //@   ensures C03.excludes.last: r != nil ==> $last >= -1 && $last < len(r.rules) && ($last >= 0 ==> ruleM(r, $last, path))
 //@   ensures C03.excludes.nolater: r != nil && $last < anyIndex && anyIndex < len(r.rules) ==> !ruleM(r, anyIndex, path)
